@@ -36,7 +36,7 @@ from .. import poly
 from ..astutil import call_name, calls, const_eval, dotted, names_in, param_names, stmts, walk_local, NotConst
 from ..cfg import CFG
 from ..core import AnalysisError, Mutant
-from ..exprnorm import check_spec
+from ..exprnorm import check_spec, same_expr
 
 EXPLANATION = (
     "Algebraic and structural rules over geometry.py, box.py, transform.py, util.py: canonical "
@@ -217,8 +217,7 @@ def r1_index(ctx):
     for st in stmts(f):
         if isinstance(st, ast.If) and any(isinstance(b, ast.Raise) for b in st.body):
             t = st.test
-            if isinstance(t, ast.Compare) and ast.unparse(t.left) == "indices.shape[-1]" and isinstance(t.ops[0], ast.NotEq) \
-                    and ast.unparse(t.comparators[0]) == "expected_amount":
+            if same_expr(t, "indices.shape[-1] != expected_amount"):
                 guard = st
     ctx.ob("R1.column-guard", GEO, f.name, "indices.shape[-1] != expected_amount", guard is not None,
            "an index array with the wrong number of columns must be refused, not silently truncated", f.lineno)
